@@ -32,8 +32,8 @@ type C13 struct {
 	consumed map[originKey]string // -> entry point that consumed it
 	// the same, with the source name lower-cased
 	consumedFold map[originKey]foldSeen
-	bound    map[contractKey]uint64
-	nt       bool
+	bound        map[contractKey]uint64
+	nt           bool
 }
 
 func init() {
